@@ -3,6 +3,7 @@
 from __future__ import annotations
 
 import sys
+from contextlib import contextmanager
 from typing import TYPE_CHECKING
 from typing import Any
 from typing import Iterable
@@ -204,7 +205,7 @@ class TablerowNode(Node):
         buffer.write('<tr class="row1">\n')
         _break = False
 
-        with context.extend(namespace):
+        with context.extend(namespace), _count_iterations(context, length):
             for item in tablerow:
                 namespace[name] = item
                 buffer.write(f'<td class="col{tablerow.col}">')
@@ -253,7 +254,7 @@ class TablerowNode(Node):
         buffer.write('<tr class="row1">\n')
         _break = False
 
-        with context.extend(namespace):
+        with context.extend(namespace), _count_iterations(context, length):
             for item in tablerow:
                 namespace[name] = item
                 buffer.write(f'<td class="col{tablerow.col}">')
@@ -297,6 +298,17 @@ class TablerowNode(Node):
         """Return variables this node adds to the node's block scope."""
         yield Identifier(self.expression.identifier, token=self.expression.token)
         yield Identifier("tablerowloop", token=self.token)
+
+
+@contextmanager
+def _count_iterations(context: RenderContext, length: int) -> Iterator[None]:
+    """Make loops nested in the tablerow block count _length_ towards the loop limit."""
+    carry = context.loop_iteration_carry
+    context.loop_iteration_carry = carry * length
+    try:
+        yield
+    finally:
+        context.loop_iteration_carry = carry
 
 
 class TablerowTag(Tag):
